@@ -713,6 +713,17 @@ def _pow(v, k):
     return v ** k
 
 
+def _exact_div(a, b):
+    """concrete a / b without introducing a rounding error into the (exact-real) model: the float
+    quotient when it is exact, else an exact rational numeral"""
+    from fractions import Fraction
+    q = a / b
+    fa, fb = Fraction(a), Fraction(b)
+    if Fraction(q) == fa / fb:
+        return q
+    return SymReal(core.rv(fa / fb))
+
+
 def _truediv(a, b):
     """numpy float division: x/0 -> inf/nan (warning, no exception)."""
     if _isnan(a) or _isnan(b):
@@ -729,9 +740,13 @@ def _truediv(a, b):
             engine().note_illdefined("division of a non-zero value by zero (inf)", None)
             raise core.PathAbort()
         if not is_sym(a):
-            return a / b
+            return _exact_div(a, b)
         return a / b
-    # symbolic denominator: fork on zero
+    # symbolic denominator: use its value when the path condition determines it, else fork on zero
+    if isinstance(b, SymInt):
+        k = engine().determined(b.e)
+        if k is not None:
+            return _truediv(a, k)
     if engine().decide(to_real(b) == 0):
         return _truediv(a, 0)
     return wrap(to_real(a) / to_real(b))
